@@ -15,18 +15,20 @@ package refserver
 import (
 	"bytes"
 	"crypto/sha1"
+	"encoding/base64"
 	"encoding/binary"
+	"encoding/json"
 	"errors"
 	"fmt"
 	"io"
 	"net"
+	"os"
 	"sync"
 	"time"
 
 	ige "github.com/xelaj/mtproto/internal/aes_ige"
 	"github.com/xelaj/mtproto/internal/encoding/tl"
 	"github.com/xelaj/mtproto/internal/mode"
-	"github.com/xelaj/mtproto/internal/session"
 )
 
 // Frame is one client-to-server message as the server saw it.
@@ -144,9 +146,20 @@ func (s *Server) Salt() int64 { return s.salt }
 // session.NewFromFile(path).Store, so that NewMTProto(Config{AuthKeyFile: path}) starts keyed.
 // The directory of path must exist (and path must contain a directory part: see C12).
 func (s *Server) WriteSession(path string) error {
-	return session.NewFromFile(path).Store(&session.Session{
-		Key: s.AuthKey(), Hash: s.AuthKeyID(), Salt: s.salt, Hostname: s.Addr(),
+	// written by hand (the file format of internal/session/file.go: JSON, base64 fields, salt as 8 bytes little
+	// endian), NOT through the library's Store: the set-up must not depend on the code under test
+	var salt [8]byte
+	binary.LittleEndian.PutUint64(salt[:], uint64(s.salt))
+	data, err := json.Marshal(map[string]string{
+		"key":      base64.StdEncoding.EncodeToString(s.AuthKey()),
+		"hash":     base64.StdEncoding.EncodeToString(s.AuthKeyID()),
+		"salt":     base64.StdEncoding.EncodeToString(salt[:]),
+		"hostname": s.Addr(),
 	})
+	if err != nil {
+		return err
+	}
+	return os.WriteFile(path, data, 0o600)
 }
 
 // OnFrame installs a callback run (on the connection's reader goroutine) for every frame
